@@ -615,6 +615,24 @@ def to_float(x):
     return x
 
 
+def _exact_eq(a, b):
+    """a == b on the EXACT halves (harness-level goals; the native halves are
+    only for the decisions the real code takes)"""
+    if _c(a) and _c(b):
+        fa, fb = asfl(a), asfl(b)
+        if fa.ex is None or fb.ex is None:
+            return False
+        if isinstance(fa.ex, Fraction) and isinstance(fb.ex, Fraction):
+            return fa.ex == fb.ex
+        return zr(fa) == zr(fb)
+    return zr(a, "goal") == zr(b, "goal")
+
+
 def equal_goal(a, b):
     """z3 Bool (or python bool) stating a == b for scalars (real or complex)."""
-    return cmp("eq", a, b)
+    if isinstance(a, (bool,)) or isinstance(b, (bool,)) or z3.is_bool(a) or z3.is_bool(b):
+        return cmp("eq", a, b)
+    if isinstance(a, Cx) or isinstance(b, Cx):
+        a, b = asc(a), asc(b)
+        return band(_exact_eq(a.re, b.re), _exact_eq(a.im, b.im))
+    return _exact_eq(a, b)
